@@ -5,8 +5,12 @@ package deflate
 
 import (
 	"compress/flate"
+	"errors"
 	"io"
 )
+
+// errWriterClosed is what Write and Flush return after Close, as in compress/flate.
+var errWriterClosed = errors.New("flate: closed writer")
 
 type Writer struct {
 	err error
@@ -120,6 +124,9 @@ func (w *Writer) Flush() (err error) {
 }
 
 func (w *Writer) Close() (err error) {
+	if w.err == errWriterClosed {
+		return nil
+	}
 	if w.err != nil {
 		return w.err
 	}
@@ -130,6 +137,8 @@ func (w *Writer) Close() (err error) {
 	}
 	if err != nil {
 		w.err = err
+		return err
 	}
-	return err
+	w.err = errWriterClosed
+	return nil
 }
